@@ -536,9 +536,8 @@ type Budget struct {
 	Workers       int
 }
 
-// hugeLens feeds the (unmetered) random mutation phase: values that a missing
-// bound turns into a panic or an immediate failure rather than a multi-GiB allocation.
-var hugeLens = []uint64{1 << 16, 1 << 18, math.MaxUint32, 1 << 48, 1 << 62, math.MaxInt64, math.MaxUint64}
+// hugeLens feeds the random mutation phase.
+var hugeLens = []uint64{1 << 16, 1 << 20, 1 << 24, math.MaxInt32, math.MaxUint32, 1 << 48, 1 << 62, math.MaxInt64, math.MaxUint64}
 
 // mutate returns a randomly damaged copy of enc.
 func mutate(rng *rand.Rand, enc []byte) []byte {
@@ -669,9 +668,10 @@ func Drive(r *verifkit.Run, codecs []Codec, b Budget) {
 		}
 	}()
 
-	// Phase 1 (serial, allocation-metered): hostile declared lengths.  Runs
-	// first: a codec that allocates without bound is reported here and is then
-	// spared the unmetered random phases (which would only thrash memory).
+	// Phase 1 (serial, allocation-metered): every hostile input — huge
+	// declared lengths at every offset, random mutations, random bodies.  A
+	// codec seen allocating beyond the bound is reported and its remaining
+	// hostile inputs are skipped (they would only thrash memory).
 	poisoned := make([]bool, len(codecs))
 	func() {
 		memMu.Lock()
@@ -680,13 +680,16 @@ func Drive(r *verifkit.Run, codecs []Codec, b Budget) {
 			if r.Skip(ci) {
 				continue
 			}
-			r.BeginCase(ci, "hostile-lengths "+codecs[ci].Name)
+			r.BeginCase(ci, "hostile inputs (metered) "+codecs[ci].Name)
 			poisoned[ci] = hostileCodec(r, ci, codecs[ci], b)
+			if poisoned[ci] {
+				r.Count("hostile_phase_stopped_after_alloc_violation."+codecs[ci].Name, 1)
+			}
 		}
 	}()
 
-	// Phase 2 (parallel over codecs): round-trip, truncation, mutation, random.
-	r.BeginCase(len(codecs), "round-trip/truncation/mutation (parallel over codecs)")
+	// Phase 2 (parallel over codecs): round-trip, version/magic bytes, truncations.
+	r.BeginCase(len(codecs), "round-trip/magic/truncation (parallel over codecs)")
 	var wg sync.WaitGroup
 	sem := make(chan struct{}, b.Workers)
 	for ci := range codecs {
@@ -698,12 +701,7 @@ func Drive(r *verifkit.Run, codecs []Codec, b Budget) {
 		go func(ci int) {
 			defer wg.Done()
 			defer func() { <-sem }()
-			bb := b
-			if poisoned[ci] {
-				bb.MutationsPer, bb.RandomInputs = 0, 0
-				r.Count("skipped_random_phases_after_alloc_violation."+codecs[ci].Name, 1)
-			}
-			driveCodec(r, ci, codecs[ci], bb)
+			driveCodec(r, ci, codecs[ci], b)
 		}(ci)
 	}
 	wg.Wait()
@@ -814,26 +812,129 @@ func driveCodec(r *verifkit.Run, ci int, c Codec, b Budget) {
 		}
 		r.Nontrivial(c.Name + "|trunc|" + lenClass(len(enc)))
 
-		// random mutations
-		for m := 0; m < b.MutationsPer; m++ {
-			in := mutate(rng, enc)
-			var err error
-			if r.Guard("decode-mutated:"+c.Name, map[string]any{"in": hexCap(in, 320)}, func() { err = c.Decode(in) }) {
-				continue
-			}
-			r.Eval(1)
-			if err != nil {
-				r.Count("mutation.rejected."+c.Name, 1)
-			} else {
-				r.Count("mutation.decoded."+c.Name, 1)
-			}
-		}
 	}
 	if refused > 0 {
 		r.Count("encode.refused."+c.Name, refused)
 	}
 
-	// random bodies behind a valid header, and fully random inputs
+}
+
+// meter decodes ins under one allocation measurement; when the batch exceeds
+// AllocBound it re-runs the inputs one by one and reports the first single
+// call above the bound.  It returns false in that case.
+func meter(r *verifkit.Run, c Codec, phase string, ins [][]byte) bool {
+	if len(ins) == 0 {
+		return true
+	}
+	d := allocOf(func() {
+		for _, in := range ins {
+			in := in
+			var err error
+			if r.Guard("decode-"+phase+":"+c.Name, map[string]any{"in": hexCap(in, 320)}, func() { err = c.Decode(in) }) {
+				continue
+			}
+			if err != nil {
+				r.Count(phase+".rejected."+c.Name, 1)
+			} else {
+				r.Count(phase+".decoded."+c.Name, 1)
+			}
+		}
+	})
+	r.Eval(len(ins))
+	r.Max("max_batch_alloc_bytes."+phase+"."+c.Name, int(d))
+	if d <= AllocBound {
+		return true
+	}
+	for _, in := range ins {
+		in := in
+		var err error
+		one := allocOf(func() {
+			r.Guard("decode-"+phase+":"+c.Name, nil, func() { err = c.Decode(in) })
+		})
+		if one > AllocBound {
+			Violate(r, "alloc-unbounded:"+c.Name, map[string]any{"phase": phase, "input_len": len(in), "alloc_bytes": one, "bound": AllocBound, "in": hexCap(in, 320), "decode_err": fmt.Sprint(err)})
+			return false
+		}
+	}
+	return true
+}
+
+// hostileCodec is the serial, allocation-metered part of a codec's run: the
+// systematic huge-length sweep, random mutations of valid encodings and random
+// bodies behind a valid header.  It returns true (and stops) when one decode
+// call was seen allocating beyond AllocBound.
+func hostileCodec(r *verifkit.Run, ci int, c Codec, b Budget) (poisoned bool) {
+	rng := r.Rand(27, uint64(ci), 2)
+	const batch = 64
+	offs := b.HostileOffs
+	if offs <= 0 {
+		offs = 160
+	}
+	var pending [][]byte
+	phase := "hostile-length"
+	push := func(in []byte) bool {
+		pending = append(pending, in)
+		if len(pending) < batch {
+			return true
+		}
+		ins := pending
+		pending = nil
+		return meter(r, c, phase, ins)
+	}
+	flush := func() bool {
+		ins := pending
+		pending = nil
+		return meter(r, c, phase, ins)
+	}
+
+	// (a) a huge declared length at every offset of a few valid encodings
+	nv := weight(c, b.HostileValues)
+	for i := 0; i < nv; i++ {
+		var cs Case
+		var ok bool
+		for tries := 0; tries < 20 && !ok; tries++ {
+			cs, ok = c.Gen(rng)
+			if ok && len(cs.Enc) > 8192 {
+				ok = false // keep hostile inputs small: the bound is per call, input-size independent
+			}
+		}
+		if !ok {
+			r.Count("hostile.no_small_value."+c.Name, 1)
+			continue
+		}
+		stop := false
+		hostileVariants(cs.Enc, offs, func(kind string, in []byte) bool {
+			if !push(in) {
+				stop = true
+			}
+			return !stop
+		})
+		if stop || !flush() {
+			return true
+		}
+		r.Nontrivial(c.Name + "|hostile|" + lenClass(len(cs.Enc)))
+	}
+
+	// (b) random mutations of valid encodings
+	phase = "mutation"
+	nm := weight(c, b.Values)
+	for i := 0; i < nm; i++ {
+		cs, ok := c.Gen(rng)
+		if !ok {
+			continue
+		}
+		for m := 0; m < b.MutationsPer; m++ {
+			if !push(mutate(rng, cs.Enc)) {
+				return true
+			}
+		}
+	}
+	if !flush() {
+		return true
+	}
+
+	// (c) random bodies behind a valid header, and fully random inputs
+	phase = "random"
 	var hdr []byte
 	for tries := 0; tries < 50 && hdr == nil; tries++ {
 		if cs, ok := c.Gen(rng); ok && len(cs.Enc) >= c.Header {
@@ -857,98 +958,11 @@ func driveCodec(r *verifkit.Run, ci int, c Codec, b Budget) {
 				in = append(in, byte(rng.UintN(256)))
 			}
 		}
-		var err error
-		if r.Guard("decode-random:"+c.Name, map[string]any{"in": hexCap(in, 320)}, func() { err = c.Decode(in) }) {
-			continue
-		}
-		r.Eval(1)
-		if err != nil {
-			r.Count("random.rejected."+c.Name, 1)
-		} else {
-			r.Count("random.decoded."+c.Name, 1)
-		}
-	}
-}
-
-// hostileCodec runs the metered huge-length sweep; it returns true when the
-// codec was seen allocating beyond AllocBound in one call (the sweep stops
-// there).
-func hostileCodec(r *verifkit.Run, ci int, c Codec, b Budget) (poisoned bool) {
-	rng := r.Rand(27, uint64(ci), 2)
-	const batch = 16
-	nv := weight(c, b.HostileValues)
-	offs := b.HostileOffs
-	if offs <= 0 {
-		offs = 160
-	}
-	for i := 0; i < nv && !poisoned; i++ {
-		var cs Case
-		var ok bool
-		for tries := 0; tries < 20 && !ok; tries++ {
-			cs, ok = c.Gen(rng)
-			if ok && len(cs.Enc) > 1500 {
-				ok = false // keep hostile inputs small: the bound is per call, input-size independent
-			}
-		}
-		if !ok {
-			continue
-		}
-		var pending [][]byte
-		// flush decodes the pending inputs under one allocation measurement and
-		// returns false once a single call is seen above the bound.
-		flush := func() bool {
-			if len(pending) == 0 {
-				return true
-			}
-			ins := pending
-			pending = nil
-			d := allocOf(func() {
-				for _, in := range ins {
-					in := in
-					var err error
-					if r.Guard("decode-hostile-length:"+c.Name, map[string]any{"in": hexCap(in, 320)}, func() { err = c.Decode(in) }) {
-						continue
-					}
-					if err != nil {
-						r.Count("hostile.rejected."+c.Name, 1)
-					} else {
-						r.Count("hostile.decoded."+c.Name, 1)
-					}
-				}
-			})
-			r.Eval(len(ins))
-			r.Max("hostile.max_batch_alloc_bytes."+c.Name, int(d))
-			if d <= AllocBound {
-				return true
-			}
-			// attribute to single inputs
-			for _, in := range ins {
-				in := in
-				var err error
-				one := allocOf(func() {
-					r.Guard("decode-hostile-length:"+c.Name, nil, func() { err = c.Decode(in) })
-				})
-				if one > AllocBound {
-					Violate(r, "alloc-unbounded:"+c.Name, map[string]any{"input_len": len(in), "alloc_bytes": one, "bound": AllocBound, "in": hexCap(in, 320), "decode_err": fmt.Sprint(err)})
-					return false
-				}
-			}
+		if !push(in) {
 			return true
 		}
-		hostileVariants(cs.Enc, offs, func(kind string, in []byte) bool {
-			pending = append(pending, in)
-			if len(pending) >= batch && !flush() {
-				poisoned = true
-				return false
-			}
-			return true
-		})
-		if !poisoned && !flush() {
-			poisoned = true
-		}
-		r.Nontrivial(c.Name + "|hostile|" + lenClass(len(cs.Enc)))
 	}
-	return poisoned
+	return !flush()
 }
 
 func hexCap(b []byte, max int) string {
